@@ -11,7 +11,7 @@ from vf.gen import schemes as S
 
 AXES = {
     "nds": [2, 1, 3],
-    "axes": ["overlap", "identical", "disjoint", "near", "square", "descending"],
+    "axes": ["overlap", "identical", "disjoint", "near", "square", "descending", "twin"],
     "link": [None, True, False],
     "indexdep": ["none", "all", "mixed", "mixed_rev"],
     "weights": ["none", "ds_all", "ds_first", "ds_last", "model_global", "model_both"],
@@ -40,6 +40,7 @@ GLOBAL_AXES = {
     "overlap": [[1, 2, 3], [2, 3, 4], [3, 4, 5], [1, 3, 5]],
     "disjoint": [[1, 2, 3], [4, 5, 6], [7, 8], [9, 10, 11]],
     "near": [[1, 2, 3], [1.4, 2.4, 3.7], [0.9, 2.0, 4.2], [1, 3, 5]],
+    "twin": [[1, 2, 3, 5], [1, 2.5, 3, 5], [1, 1.5, 4, 5], [1, 2, 4, 5]],  # same length, first and last point - other points in between
     "descending": [[3, 1, 2], [4, 3, 2], [5, 3, 4], [5, 3, 1]],  # global axes need not be sorted (first: a 3-cycle)
     "square": [[1, 2, 3, 4, 5, 6], [2, 3, 4, 5, 6], [1, 2, 3, 4, 5, 6, 7], [1, 2, 3, 4, 5, 6, 7, 8]],  # n_model == n_global
 }
